@@ -134,6 +134,14 @@ def nclass(N):
     return "odd" if N % 2 else "composite"
 
 
+def grid_size(draw, lo, hi, one_in=16):
+    """grid size from the usual small range; one case in `one_in` uses a production-size grid around 256 (the program's
+    default), so that anything keyed to 8-bit / 16-bit index ranges is exercised as well"""
+    if draw(st.integers(0, one_in - 1)) == 0:
+        return draw(st.sampled_from([255, 256, 257, 258, 272, 300, 320]))
+    return draw(st.integers(lo, hi))
+
+
 def field_layout(draw, nb, nmin=8, nmax=48, nlimit=1024, extra_buckets=3):
     """(n, bucket numbers, spacing, N): bunches at bucket*spacing, buckets not overlapping (spacing >= n), everything
     inside a transform length N taken from NPOOL.  Bucket numbers are formed as main.cpp does: reversed index of the
